@@ -103,7 +103,11 @@ def gen(seed, run, tier='quick'):
         pos = rng.randrange(len(ops) // 2, len(ops) + 1)
         ops[pos:pos] = [['scn'] + rr for _ in range(9)]
     return {'cfg': {'variant': variant,
-                    'rounding': rng.choice(ROUNDINGS)}, 'ops': ops}
+                    'rounding': rng.choice(ROUNDINGS),
+                    # callers on several threads: in a quarter of the runs
+                    # every `threads`-th step (by its arguments) is made
+                    # from a fresh thread while the main thread lives on
+                    'threads': rng.choice([0, 0, 0, 2, 3, 5])}, 'ops': ops}
 
 
 def shrink_args(h):
@@ -205,7 +209,14 @@ def resolve(st: State, op):
         act.update(expect='reject', bad='currency_params')
         return act
     if kind == 'bad_type':
-        form = r[0] % 3
+        form = r[0] % 4
+        if form == 3 and model.uorder:
+            # a type derived from Money whose reference symbol is taken,
+            # declared through the namespace dict the other types share
+            return {'a': 'money_subtype', 'name': f'V{n}',
+                    'sym': decl._pick(model.uorder, r[1]),
+                    'expect': 'reject', 'bad': 'money_subtype_taken_symbol'}
+        form %= 3
         if form == 0:
             # quantum without reference unit
             return {'a': 'base_type', 'name': f'T{n}', 'ref_sym': None,
@@ -651,6 +662,14 @@ def perform(env: Env16, act):
                 None if unit is None else type_key(env, unit.qty_cls)]}
         except Exception as e:      # noqa
             return 'exc', type(e).__name__
+    if a == 'money_subtype':
+        from quantity.money import Money
+        try:
+            type(Money)(act['name'], (Money,), env.shared_ns,
+                        ref_unit_symbol=act['sym'])
+        except Exception as e:      # noqa
+            return 'exc', type(e).__name__
+        return 'ok', {}
     if a == 'conv_new':
         env.convs[act['name']] = MoneyConverter(env.units[act['base']])
         return 'ok', {}
@@ -841,6 +860,42 @@ def set_rounding(name):
         decimalfp.set_dflt_rounding_mode(getattr(decimalfp.ROUNDING, name))
 
 
+HANG_S = 3.0
+
+
+def perform_step(env, act):
+    """perform(), from a fresh thread if the step says so.  A step that
+    does not come back (no progress of the thread for HANG_S and again for
+    HANG_S / 2, its frame unchanged) is reported as 'hang'."""
+    if not act.get('thread'):
+        return perform(env, act)
+    import sys
+    import threading
+    box = []
+
+    def work():
+        try:
+            box.append(perform(env, act))
+        except BaseException as e:      # noqa
+            box.append(('exc', type(e).__name__))
+
+    t = threading.Thread(target=work, daemon=True)
+    t.start()
+    t.join(HANG_S)
+    if t.is_alive():
+        def where():
+            f = sys._current_frames().get(t.ident)
+            return None if f is None else (id(f), f.f_lasti)
+        w0 = where()
+        t.join(HANG_S / 2)
+        if t.is_alive() and where() == w0:
+            return 'exc', 'hang'
+        t.join(4 * HANG_S)
+        if t.is_alive():
+            return 'exc', 'hang'
+    return box[0]
+
+
 def run_a1(h):
     """World A1: resolve intents, find out what the library rejects."""
     set_rounding(h['cfg'].get('rounding'))
@@ -853,7 +908,10 @@ def run_a1(h):
         act = resolve(st, op)
         if act is None:
             continue
-        out, info = perform(env, act)
+        m = h['cfg'].get('threads')
+        if m and sum(x for x in op[1:] if isinstance(x, int)) % m == 0:
+            act['thread'] = True
+        out, info = perform_step(env, act)
         accepted = out == 'ok'
         note_outcome(st, act, accepted, info)
         act = dict(act, raised=not accepted,
@@ -876,6 +934,8 @@ def run_a1(h):
             except Exception:       # noqa: only widens the observation
                 pass
         actions.append(act)
+        if info == 'hang':
+            break       # this world cannot go on
     return actions
 
 
@@ -888,7 +948,11 @@ def run_concrete(arg):
         decl.seed_catalogue(decl.RefDir(), env)
     out = [['init', observe(env, symbols, typenames, pairs, final=False)]]
     for i, act in enumerate(actions):
-        res, info = perform(env, act)
+        res, info = perform_step(env, act)
+        if info == 'hang':
+            while len(out) <= len(actions):
+                out.append(['hang', {'observation': 'hang'}, None])
+            break
         out.append([res if res == 'ok' else info,
                     observe(env, symbols, typenames, pairs,
                             final=i == len(actions) - 1),
@@ -937,6 +1001,9 @@ def judge(h):
                                rmode))
     faults, probes, known = {}, {}, {}
     violations = []
+    n_thr = sum(1 for a in actions if a.get('thread'))
+    if n_thr:
+        probes['step_made_from_another_thread'] = n_thr
 
     def bump(d, k, n=1):
         d[k] = d.get(k, 0) + n
